@@ -852,6 +852,9 @@ def b_len(engine, st, args, kwargs, node):
             raise OutsideSubset(f"len of {x.ty}")
     elif k == "view" and "len" in x.t:
         yield from x.t["len"](engine, st)
+    elif k == "view" and "as_set" in x.t:
+        for st1, sset in x.t["as_set"](engine, st):
+            yield from b_len(engine, st1, [sset], {}, node)
     else:
         raise OutsideSubset(f"len of {k}")
 
@@ -1443,6 +1446,17 @@ def m_list_remove(engine, st, recv, args, kwargs, recv_node):
 def m_list_index(engine, st, recv, args, kwargs, recv_node):
     ln, arr = recv.t
     st, b = engine.boxed(st, args[0])
+    if recv.origin is not None and recv.origin[0] == "set":
+        # an enumeration of a set: the index of a member is its position (the enumeration's inverse)
+        sset = recv.origin[1]
+        if z3.is_app(arr) and arr.num_args() >= 1 and arr.decl().name() in ("any_order", "sorted_by"):
+            pos = any_order_pos(sset, b) if arr.decl().name() == "any_order" else sorted_by_pos(sset, arr.arg(1), b)
+            for st1, has in engine.fork(st, sset[b]):
+                if has:
+                    yield st1.with_facts([0 <= pos, pos < ln, arr[pos] == b]), sv_int(pos)
+                else:
+                    yield st1, Raised("ValueError", where="list.index")
+            return
     j = S.fresh("j", S.Int)
     for st1, has in engine.fork(st, z3.Exists([j], And(0 <= j, j < ln, arr[j] == b))):
         if has:
